@@ -205,6 +205,10 @@ func execScript(s *scriptScn) *scriptObs {
 		return actRes{Kind: "ok"}
 	}
 	waits := map[int]func() actRes{}
+	// troubled: an earlier call of the code under test hung or panicked (that call is the observation and is judged);
+	// a later step whose precondition is missing because of it — a connection that was never handed out, a listener,
+	// a background call — is skipped, it is not a fault of the script
+	troubled := false
 	lost := [2]map[uint32]bool{{}, {}}        // ids whose Open act hung, panicked or failed
 	stale := [2]map[uint32][]net.Conn{{}, {}} // earlier connection objects of an id that was opened again
 	for i, a := range s.Acts {
@@ -213,7 +217,7 @@ func execScript(s *scriptScn) *scriptObs {
 		var r actRes
 		cn := conns[side][a.ID]
 		needConn := func() bool {
-			if cn == nil && lost[side][a.ID] {
+			if cn == nil && (lost[side][a.ID] || troubled) {
 				// the Open that should have produced this connection hung or failed: that is the observation;
 				// what depends on it cannot be executed
 				r = actRes{Kind: "skipped"}
@@ -424,6 +428,7 @@ func execScript(s *scriptScn) *scriptObs {
 		case "openrace":
 			// a.N goroutines open the ids a.ID, a.ID+1, … while another one closes the Mux
 			m := muxes[side]
+			raced := make(chan map[uint32]net.Conn, 1)
 			r = bounded(func() actRes {
 				start := make(chan struct{})
 				type opened struct {
@@ -464,17 +469,31 @@ func execScript(s *scriptScn) *scriptObs {
 				}()
 				close(start)
 				out := actRes{Kind: "ok"}
+				got := map[uint32]net.Conn{}
 				for k := 0; k < a.N+1; k++ {
 					x := <-res
 					if x.res.Kind != "ok" {
 						out = x.res
 					}
 					if x.cn != nil {
-						conns[side][x.id] = x.cn
+						got[x.id] = x.cn
 					}
 				}
+				raced <- got
 				return out
 			})
+			select {
+			case got := <-raced:
+				for id, c0 := range got {
+					conns[side][id] = c0
+				}
+			default:
+			}
+			for k := 0; k < a.N; k++ {
+				if id := a.ID + uint32(k); conns[side][id] == nil {
+					lost[side][id] = true // its Open hung, panicked or failed: what depends on it is skipped
+				}
+			}
 		case "trunkclose":
 			recs[side].Conn.Close()
 			r = actRes{Kind: "ok"}
@@ -551,6 +570,15 @@ func execScript(s *scriptScn) *scriptObs {
 		default:
 			r = actRes{Kind: "none", Err: "harness: unknown op " + a.Op}
 			o.Fail = "unknown op " + a.Op
+		}
+		if r.Kind == "timeout" || r.Kind == "panic" {
+			troubled = true
+		}
+		if r.Kind == "none" && troubled {
+			// the precondition of this step is missing because an earlier call never returned: skipped, and the
+			// scenario is not a faulty script
+			r = actRes{Kind: "skipped"}
+			o.Fail = ""
 		}
 		o.Res[i] = r
 	}
